@@ -598,6 +598,11 @@ class Schema:
         INSEQ(tag, name) with the instances  k<n -> INSEQ(tag, name(elem k))  added at demanded indices."""
         if S.tag and S.tag[0] == "field":
             ref = S.tag[2]
+            hook = getattr(ip.reg, "set_of_field_hook", None)
+            if hook is not None:
+                r = hook(ip, ref, S.tag[1], S)
+                if r is not None:
+                    return r
             INSEQ = fn("INSEQ_" + S.tag[1], Ref, Name, B)
             return SSet(lambda nm, ref=ref: INSEQ(ref, nm), f"set({S.tag[1]})")
         if isinstance(S.n, int):
@@ -682,3 +687,9 @@ class Schema:
         if h is None:
             raise Unsupported("dict comprehension over a symbolic-length sequence")
         return h(ip, e, fr, S)
+
+    def sorted_model(self, ip, it, key, node=None):
+        h = getattr(ip.reg, "sorted_hook", None)
+        if h is None:
+            raise Unsupported("sorted()")
+        return h(ip, it, key, node)
